@@ -491,6 +491,21 @@ static void export_case(uint64_t idx, void *arg)
                         EDIFF("file output differs from alloc", "page '%s' \"%s\": %zu vs %zu bytes, first difference at %zu", a->name, o->label, fbn, needed, d);
                 }
 
+                /* file name that is already in use: the earlier, longer content must be gone (seed C16-10: O_TRUNC lost) */
+                if (ref) {
+                        free(fb); fb = NULL;
+                        FILE *jf = fopen(path, "wb");
+                        if (jf) { for (size_t i = 0; i < needed + 777; i++) fputc(0x5A, jf); fclose(jf); }
+                        ok = vbi_export_file(e, path, &a->pg); evals++;
+                        fb = read_file(path, &fbn);
+                        unlink(path);
+                        if (!ok) EFAIL("file target fails when the file exists already", "page '%s' \"%s\" (%s)", a->name, o->label, vbi_export_errstr(e));
+                        if (!fb || fbn != needed || memcmp(fb, ref, needed)) {
+                                size_t d = 0; while (fb && d < needed && d < fbn && fb[d] == ref[d]) d++;
+                                EDIFF("file output over an existing longer file differs from alloc", "page '%s' \"%s\": %zu vs %zu bytes, first difference at %zu", a->name, o->label, fbn, needed, d);
+                        }
+                }
+
                 /* text fidelity of the reference */
                 if (ref && o->mod == M_TEXT) {
                         char *plain = ref; size_t pn = needed; char *tmp = NULL;
